@@ -15,6 +15,11 @@ CLAIMED = {
             "Exploration is the right level: the property quantifies over all byte strings, so absence cannot be shown, only searched.",
             "Trusts the in-process mirror of main() only as an accelerator: every candidate is confirmed on the guard-off binary. Hangs are C02's.",
             "DESIGN.md §4 C01"),
+    "C02": ("property-based testing (Hypothesis: truncation tails, token mutation, cyclic-hierarchy generator); termination oracle with exclusive re-check",
+            "Generated-input search over truncated/mutated programs and cyclic class graphs; a case is a violation only when the real binary "
+            "prints `timeout` 3/3 on an otherwise idle machine (or dies of stack overflow / memory exhaustion). Exploration: termination on all finite inputs cannot be shown by sampling, only searched.",
+            "Trusts the wall-clock watchdog of ti as the observable; load-induced timeouts are re-checked under a machine-wide exclusive lock and otherwise counted as inconclusive.",
+            "DESIGN.md §4 C02"),
 }
 
 PENDING_REASON = "check not built yet in this round (planned in DESIGN.md §3.11); no claim is made"
